@@ -160,11 +160,16 @@ class VExcClass(Val):
     name: str
 
 
+_exc_ids = itertools.count(1)
+
+
 @dataclass(frozen=True)
 class VExc(Val):
     cls: str
     args: tuple = ()
     cause: Any = None
+    uid: int = field(default_factory=lambda: next(_exc_ids))
+    kw: tuple = ()  # keyword arguments given at construction (e.g. token=...)
 
 
 @dataclass(frozen=True)
